@@ -13,6 +13,18 @@
 
 namespace rlbox::detail {
 
+// bool, or an enumeration whose underlying type is bool: an object of such a
+// type has the values 0 and 1 only, whatever its byte can hold
+template<typename T, bool TIsEnum = std::is_enum_v<T>>
+struct is_bool_valued : std::is_same<std::remove_cv_t<T>, bool>
+{};
+template<typename T>
+struct is_bool_valued<T, true>
+  : std::is_same<std::underlying_type_t<std::remove_cv_t<T>>, bool>
+{};
+template<typename T>
+inline constexpr bool is_bool_valued_v = is_bool_valued<T>::value;
+
 template<typename T_To, typename T_From>
 inline constexpr void convert_type_fundamental(T_To& to,
                                                const volatile T_From& from)
@@ -33,7 +45,16 @@ inline constexpr void convert_type_fundamental(T_To& to,
   {
     static_assert(std::is_same_v<detail::remove_cv_ref_t<T_To>,
                                  detail::remove_cv_ref_t<T_From>>);
-    to = from;
+    if constexpr (is_bool_valued_v<T_From>) {
+      // as for bool below: the cell may hold any byte, only 0 and 1 are values
+      const unsigned char raw =
+        *reinterpret_cast<const volatile unsigned char*>(&from);
+      dynamic_check(raw <= 1,
+                    "Over/Underflow when converting between integer types");
+      to = static_cast<T_To>(raw != 0);
+    } else {
+      to = from;
+    }
   }
   else if_constexpr_named(
     cond4, is_floating_point_v<T_To> || is_floating_point_v<T_From>)
@@ -166,8 +187,8 @@ inline constexpr void convert_type_fundamental_or_array(T_To& to,
     // only the bytes 0 and 1 are bools
     if constexpr (sizeof(T_To_El) == sizeof(T_From_El) &&
                   is_signed_v<T_To_El> == is_signed_v<T_From_El> &&
-                  !is_same_v<remove_cv_t<T_To_El>, bool> &&
-                  !is_same_v<remove_cv_t<T_From_El>, bool> &&
+                  !is_bool_valued_v<T_To_El> &&
+                  !is_bool_valued_v<T_From_El> &&
                   is_floating_point_v<T_To_El> ==
                     is_floating_point_v<T_From_El>) {
       // Sanity check - this should definitely be true
